@@ -40,6 +40,9 @@ theories/C08/Algebra.vos theories/C08/Algebra.vok theories/C08/Algebra.required_
 theories/C08/Clone.vo theories/C08/Clone.glob theories/C08/Clone.v.beautified theories/C08/Clone.required_vo: theories/C08/Clone.v theories/Base/Bytes.vo theories/Base/Res.vo theories/Base/Sig.vo theories/C08/Model.vo theories/C08/Spec.vo theories/C08/Algebra.vo theories/C08/SigFacts.vo theories/C08/ValueFacts.vo theories/C08/Order.vo
 theories/C08/Clone.vio: theories/C08/Clone.v theories/Base/Bytes.vio theories/Base/Res.vio theories/Base/Sig.vio theories/C08/Model.vio theories/C08/Spec.vio theories/C08/Algebra.vio theories/C08/SigFacts.vio theories/C08/ValueFacts.vio theories/C08/Order.vio
 theories/C08/Clone.vos theories/C08/Clone.vok theories/C08/Clone.required_vos: theories/C08/Clone.v theories/Base/Bytes.vos theories/Base/Res.vos theories/Base/Sig.vos theories/C08/Model.vos theories/C08/Spec.vos theories/C08/Algebra.vos theories/C08/SigFacts.vos theories/C08/ValueFacts.vos theories/C08/Order.vos
+theories/C08/Conv.vo theories/C08/Conv.glob theories/C08/Conv.v.beautified theories/C08/Conv.required_vo: theories/C08/Conv.v theories/Base/Bytes.vo theories/Base/Res.vo theories/Base/Sig.vo theories/C08/Model.vo theories/C08/Spec.vo theories/C08/Algebra.vo theories/C08/SigFacts.vo theories/C08/ValueFacts.vo theories/C08/Order.vo
+theories/C08/Conv.vio: theories/C08/Conv.v theories/Base/Bytes.vio theories/Base/Res.vio theories/Base/Sig.vio theories/C08/Model.vio theories/C08/Spec.vio theories/C08/Algebra.vio theories/C08/SigFacts.vio theories/C08/ValueFacts.vio theories/C08/Order.vio
+theories/C08/Conv.vos theories/C08/Conv.vok theories/C08/Conv.required_vos: theories/C08/Conv.v theories/Base/Bytes.vos theories/Base/Res.vos theories/Base/Sig.vos theories/C08/Model.vos theories/C08/Spec.vos theories/C08/Algebra.vos theories/C08/SigFacts.vos theories/C08/ValueFacts.vos theories/C08/Order.vos
 theories/C08/Model.vo theories/C08/Model.glob theories/C08/Model.v.beautified theories/C08/Model.required_vo: theories/C08/Model.v theories/Base/Bytes.vo theories/Base/Res.vo theories/Base/Sig.vo
 theories/C08/Model.vio: theories/C08/Model.v theories/Base/Bytes.vio theories/Base/Res.vio theories/Base/Sig.vio
 theories/C08/Model.vos theories/C08/Model.vok theories/C08/Model.required_vos: theories/C08/Model.v theories/Base/Bytes.vos theories/Base/Res.vos theories/Base/Sig.vos
@@ -103,6 +106,9 @@ theories/C16/LineFacts.vos theories/C16/LineFacts.vok theories/C16/LineFacts.req
 theories/C16/Model.vo theories/C16/Model.glob theories/C16/Model.v.beautified theories/C16/Model.required_vo: theories/C16/Model.v theories/Base/Bytes.vo theories/Base/Res.vo
 theories/C16/Model.vio: theories/C16/Model.v theories/Base/Bytes.vio theories/Base/Res.vio
 theories/C16/Model.vos theories/C16/Model.vok theories/C16/Model.required_vos: theories/C16/Model.v theories/Base/Bytes.vos theories/Base/Res.vos
+theories/C16/ParseFacts.vo theories/C16/ParseFacts.glob theories/C16/ParseFacts.v.beautified theories/C16/ParseFacts.required_vo: theories/C16/ParseFacts.v theories/Base/Bytes.vo theories/Base/Res.vo theories/C16/Model.vo theories/C16/Spec.vo theories/C16/LineFacts.vo
+theories/C16/ParseFacts.vio: theories/C16/ParseFacts.v theories/Base/Bytes.vio theories/Base/Res.vio theories/C16/Model.vio theories/C16/Spec.vio theories/C16/LineFacts.vio
+theories/C16/ParseFacts.vos theories/C16/ParseFacts.vok theories/C16/ParseFacts.required_vos: theories/C16/ParseFacts.v theories/Base/Bytes.vos theories/Base/Res.vos theories/C16/Model.vos theories/C16/Spec.vos theories/C16/LineFacts.vos
 theories/C16/Run.vo theories/C16/Run.glob theories/C16/Run.v.beautified theories/C16/Run.required_vo: theories/C16/Run.v theories/Base/Bytes.vo theories/Base/Res.vo theories/C16/Model.vo theories/C16/Wire.vo theories/C16/Spec.vo
 theories/C16/Run.vio: theories/C16/Run.v theories/Base/Bytes.vio theories/Base/Res.vio theories/C16/Model.vio theories/C16/Wire.vio theories/C16/Spec.vio
 theories/C16/Run.vos theories/C16/Run.vok theories/C16/Run.required_vos: theories/C16/Run.v theories/Base/Bytes.vos theories/Base/Res.vos theories/C16/Model.vos theories/C16/Wire.vos theories/C16/Spec.vos
@@ -253,6 +259,9 @@ theories/Properties/C17.vos theories/Properties/C17.vok theories/Properties/C17.
 theories/Properties/C21.vo theories/Properties/C21.glob theories/Properties/C21.v.beautified theories/Properties/C21.required_vo: theories/Properties/C21.v theories/Base/Bytes.vo theories/Base/Res.vo theories/C21/Model.vo theories/C21/Spec.vo theories/C21/Proofs.vo
 theories/Properties/C21.vio: theories/Properties/C21.v theories/Base/Bytes.vio theories/Base/Res.vio theories/C21/Model.vio theories/C21/Spec.vio theories/C21/Proofs.vio
 theories/Properties/C21.vos theories/Properties/C21.vok theories/Properties/C21.required_vos: theories/Properties/C21.v theories/Base/Bytes.vos theories/Base/Res.vos theories/C21/Model.vos theories/C21/Spec.vos theories/C21/Proofs.vos
+theories/Properties/C22.vo theories/Properties/C22.glob theories/Properties/C22.v.beautified theories/Properties/C22.required_vo: theories/Properties/C22.v theories/Base/Bytes.vo theories/Base/Res.vo theories/C21/Model.vo theories/C22/Model.vo theories/C22/Spec.vo theories/C22/Proofs.vo
+theories/Properties/C22.vio: theories/Properties/C22.v theories/Base/Bytes.vio theories/Base/Res.vio theories/C21/Model.vio theories/C22/Model.vio theories/C22/Spec.vio theories/C22/Proofs.vio
+theories/Properties/C22.vos theories/Properties/C22.vok theories/Properties/C22.required_vos: theories/Properties/C22.v theories/Base/Bytes.vos theories/Base/Res.vos theories/C21/Model.vos theories/C22/Model.vos theories/C22/Spec.vos theories/C22/Proofs.vos
 theories/Properties/C23.vo theories/Properties/C23.glob theories/Properties/C23.v.beautified theories/Properties/C23.required_vo: theories/Properties/C23.v theories/Base/Bytes.vo theories/Base/Res.vo theories/C23/Dec.vo theories/C23/Model.vo theories/C23/Spec.vo theories/C23/Known.vo theories/C23/Codec.vo theories/C23/Proofs.vo
 theories/Properties/C23.vio: theories/Properties/C23.v theories/Base/Bytes.vio theories/Base/Res.vio theories/C23/Dec.vio theories/C23/Model.vio theories/C23/Spec.vio theories/C23/Known.vio theories/C23/Codec.vio theories/C23/Proofs.vio
 theories/Properties/C23.vos theories/Properties/C23.vok theories/Properties/C23.required_vos: theories/Properties/C23.v theories/Base/Bytes.vos theories/Base/Res.vos theories/C23/Dec.vos theories/C23/Model.vos theories/C23/Spec.vos theories/C23/Known.vos theories/C23/Codec.vos theories/C23/Proofs.vos
